@@ -77,6 +77,12 @@ def agree_class_value(model, impl):
         kind, payload, text = model[1], unhx(model[2]), unhx(impl[1])
         if not kind_matches(kind, payload, text):
             return "error message: the model reports %s(%r) but the text is %r" % (kind, payload[:60], text[:120])
+        # ... and, where the model renders the message itself (Model/Message.v: failures reported by the top level,
+        # all items UTF-8), the text byte for byte
+        if len(model) >= 4 and model[3] not in ("-", ""):
+            if model[3] == "PANIC" or unhx(model[3]) != text:
+                return "error text: model %r vs implementation %r" % (
+                    model[3] if model[3] == "PANIC" else unhx(model[3])[:200], text[:200])
     return None
 
 
